@@ -91,3 +91,35 @@ def replay_ftp_parent_listing(doc):
     if not consults and v_item and not v_parent:
         return True, "--reject-regex '/private/$' and the URL %s (accepted: %r): _fetch_parent_path sends a LIST for %s, which the filter rejects (%r); the function never asks FetchRule" % (item, v_item, parent, v_parent)
     return False, 'the parent listing is consulted with the filters (or lies inside the scope)'
+
+
+def replay_consult_filters(doc):
+    """FetchRule.consult_filters is a function of the URL and of the CURRENT link record: consulted again after the record changed (try count, level),
+    the verdict must follow the record -- a remembered verdict from an earlier consultation must not be reused"""
+    from wpull.processor.rule import FetchRule
+    from wpull.urlfilter import DemuxURLFilter, TriesFilter, LevelFilter, RecursiveFilter, SchemeFilter
+    from wpull.pipeline.item import URLRecord
+    from wpull.url import URLInfo
+    def rec(url, **kw):
+        r = URLRecord(); r.url = url; r.parent_url = 'http://h.example/'; r.root_url = 'http://h.example/'; r.level = 1; r.inline_level = None; r.try_count = 0; r.status = None
+        for k, v in kw.items(): setattr(r, k, v)
+        return r
+    bad = []
+    rule = FetchRule(url_filter=DemuxURLFilter([SchemeFilter(), TriesFilter(3), LevelFilter(2)]))
+    u = URLInfo.parse('http://h.example/flaky')
+    r = rec(u.url)
+    v1 = rule.consult_filters(u, r)[0]
+    r.try_count = 3                                # the same record object after three failed attempts
+    v2 = rule.consult_filters(u, r)[0]
+    v3 = rule.consult_filters(u, rec(u.url, try_count=5))[0]
+    if not v1: bad.append('a fresh URL within all limits is refused')
+    if v2: bad.append('tries=3: the verdict for %s is still True after the record reached try_count 3 (verdict of the earlier consultation reused)' % u.url)
+    if v3: bad.append('tries=3: a record with try_count 5 is approved')
+    r2 = rec(u.url); ok1 = rule.consult_filters(u, r2)[0]; r2.level = 7; ok2 = rule.consult_filters(u, r2)[0]
+    if ok2: bad.append('level limit 2: verdict still True after the record moved to level 7')
+    # two different URLs consulted alternately
+    a, b = URLInfo.parse('http://h.example/a'), URLInfo.parse('ftp-x://h.example/b')
+    if not rule.consult_filters(a, rec(a.url))[0] or rule.consult_filters(b, rec(b.url))[0] or not rule.consult_filters(a, rec(a.url))[0]:
+        bad.append('verdicts of alternately consulted URLs are mixed up')
+    if bad: return True, '; '.join(bad)
+    return False, 'the verdict follows the current record on repeated consultation'
